@@ -35,6 +35,11 @@ def one(args):
             os.remove(junk)
         rc, out = sh(['go', 'build', './...'], t)
         res['builds'] = rc == 0
+        if rc != 0:
+            # applied with fuzz onto code that has changed since: a stale patch, not a refactoring of HEAD
+            res['applies'] = False
+            res['patch_output'] = 'applies with fuzz but no longer builds: ' + out[-300:]
+            return res
         rc, out = sh(['go', 'test', '-vet=off', '-count=1', './...'], t)
         res['tests'] = 'pass' if rc == 0 else 'FAIL'
         fired = {}
